@@ -796,6 +796,12 @@ func (t *fnTrans) moduleCall(in ssa.Instruction, callee *ssa.Function, cc *ssa.C
 	if t.contractCall(in, callee, cc, res, mc) {
 		return
 	}
+	if mc == nil && t.curNode != nil {
+		if kid := t.curNode.kids[in]; kid != nil && kid.fn == callee {
+			t.inlineCall(kid, in, callee, cc, res)
+			return
+		}
+	}
 	s := t.g.summaries[callee]
 	key := t.g.fnKey(callee)
 	t.uncontracted[key] = true
